@@ -285,6 +285,7 @@ pub fn load_known(root: &Path) -> Vec<Known> {
 // orchestrator
 // ---------------------------------------------------------------------------
 
+#[derive(Clone)]
 struct Cand {
     i: u64,
     seed: u64,
@@ -560,9 +561,10 @@ pub fn orchestrate<P: Property>(tier: Tier) -> i32 {
 
     // ---- violations: first instance per class (lowest run index)
     cands.sort_by_key(|c| c.i);
-    let mut by_class: BTreeMap<String, Cand> = BTreeMap::new();
+    // every worker reports its first run of each class: keep them all, lowest run index first
+    let mut by_class: BTreeMap<String, Vec<Cand>> = BTreeMap::new();
     for c in cands {
-        by_class.entry(c.class.clone()).or_insert(c);
+        by_class.entry(c.class.clone()).or_default().push(c);
     }
     let known = load_known(&root);
     // FUSIM_OUT redirects replay and evidence files (used when the checks are pointed at a
@@ -574,29 +576,39 @@ pub fn orchestrate<P: Property>(tier: Tier) -> i32 {
     let mut known_hits: Vec<String> = vec![];
     let mut exit = 0;
     let mut reported: Vec<Value> = vec![];
-    for (class, cand) in by_class {
+    for (class, cands_of_class) in by_class {
         let short = class.replace(|c: char| !c.is_ascii_alphanumeric() && c != '.' && c != '-', "_");
-        let raw_path = replay_dir.join(format!("{}-{}-run{}.raw.json", P::ID, short, cand.i));
-        write_replay(&raw_path, P::ID, tier, base, &cand, false);
         let tmo = Duration::from_secs(P::hang_limit_s() * 2 + 10);
-        // 1. confirm in a fresh process
-        let confirmed = match fresh_replay(&raw_path, tmo) {
-            Ok(Some((c, _))) if c == class || class.ends_with(".hang") && c == "hang" || class.ends_with(".crash") && c == "crash" => true,
-            Ok(other) => {
-                harness_errors.push(format!(
-                    "run {} reported {} but a fresh process gives {:?}: not reproducible",
-                    cand.i, class, other.map(|x| x.0)
-                ));
-                false
+        // 1. confirm in a fresh process. A run whose verdict rests on values only the real
+        // clock decides (two real ctimes) may not repeat: try the next runs of the same class
+        // before calling the class irreproducible.
+        let mut chosen: Option<(Cand, PathBuf)> = None;
+        let mut misses: Vec<String> = vec![];
+        for cand in cands_of_class.iter().take(6) {
+            let raw_path = replay_dir.join(format!("{}-{}-run{}.raw.json", P::ID, short, cand.i));
+            write_replay(&raw_path, P::ID, tier, base, cand, false);
+            match fresh_replay(&raw_path, tmo) {
+                Ok(Some((c, _))) if c == class || class.ends_with(".hang") && c == "hang" || class.ends_with(".crash") && c == "crash" => {
+                    chosen = Some((cand.clone(), raw_path));
+                    break;
+                }
+                Ok(other) => {
+                    misses.push(format!(
+                        "run {} reported {} but a fresh process gives {:?}: not reproducible",
+                        cand.i, class, other.map(|x| x.0)
+                    ));
+                    let _ = fs::remove_file(&raw_path);
+                }
+                Err(e) => {
+                    misses.push(format!("replay of run {} failed: {e}", cand.i));
+                    let _ = fs::remove_file(&raw_path);
+                }
             }
-            Err(e) => {
-                harness_errors.push(format!("replay of run {} failed: {e}", cand.i));
-                false
-            }
-        };
-        if !confirmed {
-            continue;
         }
+        let Some((cand, raw_path)) = chosen else {
+            harness_errors.extend(misses);
+            continue;
+        };
         // 2. minimise (in another fresh process), 3. replay the minimised file
         let min_path = replay_dir.join(format!("{}-{}-run{}.json", P::ID, short, cand.i));
         let mut final_path = raw_path.clone();
